@@ -713,3 +713,180 @@ Proof.
   intros H Hz rho xv. rewrite (reduce_exact_identity _ _ _ _ _ _ _ _ _ H rho xv).
   rewrite (cp_is_zero_eval rho xv R Hz). lia.
 Qed.
+
+(* ------------------------------------------------------------------ from the view back to polynomials *)
+(* mp_of_coeffs x and mp_coeffs x are inverse up to evaluation: the identities above are identities of the
+   multivariate polynomials the entry points m_reduce / m_prem / ... receive and return. *)
+
+Lemma mp_eval_of_terms rho l :
+  mp_eval rho (mp_of_terms l) = fold_right (fun t acc => snd t * mono_eval rho (fst t) + acc) 0 l.
+Proof.
+  unfold mp_of_terms. induction l as [|t l IH]; [reflexivity|].
+  cbn [fold_right]. rewrite mp_eval_add_term, IH. reflexivity.
+Qed.
+
+Lemma mp_eval_var_pow rho x k : mp_eval rho (mp_var_pow x k) = rho x ^ Z.of_N k.
+Proof.
+  unfold mp_var_pow, mono_var. destruct (k =? 0)%N eqn:E.
+  - apply N.eqb_eq in E. subst. cbn. reflexivity.
+  - rewrite mp_eval_cons. cbn [fst snd]. rewrite mono_eval_cons.
+    change (mono_eval rho []) with 1. change (mp_eval rho []) with 0. ring.
+Qed.
+
+Lemma mp_of_coeffs_fold rho x : forall l acc k,
+  mp_eval rho (fst (fold_left (fun (acc : mpoly * N) c =>
+       (mp_add (fst acc) (mp_mul c (mp_var_pow x (snd acc))), (snd acc + 1)%N)) l (acc, k))) =
+  mp_eval rho acc + rho x ^ Z.of_N k * cp_eval rho (rho x) l.
+Proof.
+  induction l as [|c l IH]; intros acc k; cbn [fold_left fst snd cp_eval].
+  - lia.
+  - rewrite IH, mp_eval_add, mp_eval_mul, mp_eval_var_pow.
+    rewrite N2Z.inj_add, Z.pow_add_r by lia. change (Z.of_N 1) with 1. rewrite Z.pow_1_r. ring.
+Qed.
+
+Lemma mp_of_coeffs_eval rho x l : mp_eval rho (mp_of_coeffs x l) = cp_eval rho (rho x) l.
+Proof.
+  unfold mp_of_coeffs. rewrite mp_of_coeffs_fold. change (Z.of_N 0) with 0. rewrite Z.pow_0_r.
+  change (mp_eval rho []) with 0. ring.
+Qed.
+
+(* a canonical monomial splits into its x-free part and the power of x *)
+Lemma mono_wf_from_gt : forall m y, mono_wf_from (Some y) m = true -> forall ve, In ve m -> (y < fst ve)%N.
+Proof.
+  induction m as [|[z e] m IH]; intros y H ve Hin; [destruct Hin|].
+  cbn [mono_wf_from] in H. apply andb_true_iff in H. destruct H as [H H2].
+  apply andb_true_iff in H. destruct H as [_ H1]. apply N.ltb_lt in H1.
+  destruct Hin as [<-|Hin]; [assumption|].
+  specialize (IH z H2 ve Hin). lia.
+Qed.
+
+Lemma mono_remove_noop x m : (forall ve, In ve m -> fst ve <> x) -> mono_remove x m = m.
+Proof.
+  unfold mono_remove. induction m as [|ve m IH]; intros H; [reflexivity|].
+  cbn [filter]. cbv beta.
+  match goal with |- context [negb ?b] => destruct b eqn:E end; cbn [negb].
+  - exfalso. apply N.eqb_eq in E. apply (H ve); [left; reflexivity|assumption].
+  - f_equal. apply IH. intros v Hv. apply H. right. assumption.
+Qed.
+
+Lemma mono_split rho x : forall m lo, mono_wf_from lo m = true ->
+  mono_eval rho m = mono_eval rho (mono_remove x m) * rho x ^ Z.of_N (mono_deg x m).
+Proof.
+  induction m as [|[y e] m IH]; intros lo H.
+  - cbn. reflexivity.
+  - cbn [mono_wf_from] in H. apply andb_true_iff in H. destruct H as [_ H2].
+    unfold mono_remove, mono_deg. cbn [filter fold_right fst snd]. cbv beta. cbn [fst snd].
+    fold (mono_remove x m). fold (mono_deg x m).
+    match goal with |- context [negb ?b] => destruct b eqn:E end; cbn [negb].
+    + apply N.eqb_eq in E. subst y.
+      rewrite mono_remove_noop.
+      * rewrite mono_eval_cons. ring.
+      * intros ve Hve. pose proof (mono_wf_from_gt m x H2 ve Hve). lia.
+    + rewrite !mono_eval_cons, (IH (Some y) H2). ring.
+Qed.
+
+(* sums over 0 <= i < n in Horner form, as cp_eval computes them *)
+Fixpoint sumx (xv : Z) (g : nat -> Z) (s n : nat) : Z :=
+  match n with O => 0 | S n' => g s + xv * sumx xv g (S s) n' end.
+
+Lemma cp_eval_map_seq rho xv (F : nat -> mpoly) : forall n s,
+  cp_eval rho xv (map F (seq s n)) = sumx xv (fun k => mp_eval rho (F k)) s n.
+Proof. induction n as [|n IH]; intros s; cbn [seq map cp_eval sumx]; [reflexivity|]. rewrite IH. reflexivity. Qed.
+
+Lemma sumx_add xv g h : forall n s, sumx xv (fun k => g k + h k) s n = sumx xv g s n + sumx xv h s n.
+Proof. induction n as [|n IH]; intros s; cbn [sumx]; [reflexivity|]. rewrite IH. ring. Qed.
+
+Lemma sumx_ext xv g h : (forall k, g k = h k) -> forall n s, sumx xv g s n = sumx xv h s n.
+Proof. intros E. induction n as [|n IH]; intros s; cbn [sumx]; [reflexivity|]. rewrite IH, E. reflexivity. Qed.
+
+Lemma sumx_indicator xv (d : nat) a : forall n s,
+  sumx xv (fun k => if (k =? d)%nat then a else 0) s n =
+  if ((s <=? d) && (d <? s + n))%nat then a * xv ^ Z.of_nat (d - s) else 0.
+Proof.
+  induction n as [|n IH]; intros s; cbn [sumx].
+  - destruct (s <=? d)%nat eqn:E1; cbn [andb]; [|reflexivity].
+    replace (d <? s + 0)%nat with false; [reflexivity|].
+    symmetry. apply Nat.ltb_ge. apply Nat.leb_le in E1. lia.
+  - rewrite IH. destruct (Nat.eqb_spec s d) as [E|E].
+    + subst d. replace (S s <=? s)%nat with false by (symmetry; apply Nat.leb_gt; lia). cbn [andb].
+      rewrite Nat.leb_refl. replace (s <? s + S n)%nat with true by (symmetry; apply Nat.ltb_lt; lia).
+      cbn [andb]. rewrite Nat.sub_diag. change (Z.of_nat 0) with 0. rewrite Z.pow_0_r. ring.
+    + destruct (S s <=? d)%nat eqn:E1; cbn [andb].
+      * apply Nat.leb_le in E1. replace (s <=? d)%nat with true by (symmetry; apply Nat.leb_le; lia). cbn [andb].
+        replace (S s + n)%nat with (s + S n)%nat by lia.
+        destruct (d <? s + S n)%nat; [|ring].
+        replace (d - s)%nat with (S (d - S s)) by lia. rewrite Nat2Z.inj_succ, Z.pow_succ_r by lia. ring.
+      * apply Nat.leb_gt in E1. replace (s <=? d)%nat with false by (symmetry; apply Nat.leb_gt; lia).
+        cbn [andb]. ring.
+Qed.
+
+Lemma mp_coeff_cons_eval rho x k t p :
+  mp_eval rho (mp_coeff x k (t :: p)) =
+  (if (mono_deg x (fst t) =? k)%N then snd t * mono_eval rho (mono_remove x (fst t)) else 0) + mp_eval rho (mp_coeff x k p).
+Proof.
+  unfold mp_coeff. cbn [filter]. destruct (mono_deg x (fst t) =? k)%N.
+  - cbn [map]. rewrite !mp_eval_of_terms. cbn [fold_right fst snd]. rewrite <- mp_eval_of_terms. reflexivity.
+  - lia.
+Qed.
+
+Lemma mp_coeff_nil_eval rho x k : mp_eval rho (mp_coeff x k []) = 0.
+Proof. reflexivity. Qed.
+
+Lemma view_eval_terms rho x n : forall p,
+  (forall t, In t p -> mono_wf (fst t) = true /\ (N.to_nat (mono_deg x (fst t)) < n)%nat) ->
+  cp_eval rho (rho x) (map (fun k => mp_coeff x (N.of_nat k) p) (seq 0 n)) = mp_eval rho p.
+Proof.
+  induction p as [|t p IH]; intros H.
+  - rewrite cp_eval_map_seq. rewrite (sumx_ext _ _ (fun _ => 0)) by (intros; apply mp_coeff_nil_eval).
+    clear. generalize 0%nat. induction n as [|n IHn]; intros s; cbn [sumx]; [reflexivity|]. rewrite IHn. cbn. lia.
+  - destruct (H t (or_introl eq_refl)) as [Hwf Hdeg].
+    rewrite cp_eval_map_seq.
+    rewrite (sumx_ext _ _ (fun k => (if (k =? N.to_nat (mono_deg x (fst t)))%nat
+                                     then snd t * mono_eval rho (mono_remove x (fst t)) else 0)
+                                    + mp_eval rho (mp_coeff x (N.of_nat k) p))).
+    + rewrite sumx_add, sumx_indicator, <- cp_eval_map_seq, IH by (intros u Hu; apply H; right; assumption).
+      cbn [Nat.leb andb]. replace (_ <? 0 + n)%nat with true by (symmetry; apply Nat.ltb_lt; lia).
+      rewrite Nat.sub_0_r, N_nat_Z, mp_eval_cons.
+      rewrite (mono_split rho x (fst t) None Hwf). ring.
+    + intros k. rewrite mp_coeff_cons_eval. f_equal.
+      destruct (Nat.eqb_spec k (N.to_nat (mono_deg x (fst t)))) as [E|E].
+      * subst k. rewrite N2Nat.id, N.eqb_refl. reflexivity.
+      * replace (mono_deg x (fst t) =? N.of_nat k)%N with false; [reflexivity|].
+        symmetry. apply N.eqb_neq. intros E'. apply E. rewrite E', Nat2N.id. reflexivity.
+Qed.
+
+Lemma mp_degree_ge x : forall p t, In t p -> (mono_deg x (fst t) <= mp_degree x p)%N.
+Proof.
+  unfold mp_degree. induction p as [|u p IH]; intros t Hin; [destruct Hin|].
+  destruct Hin as [<-|Hin]; cbn [fold_right]; [lia|].
+  specialize (IH t Hin). lia.
+Qed.
+
+Lemma mp_wf_monos : forall p, mp_wf p = true -> forall t, In t p -> mono_wf (fst t) = true.
+Proof.
+  induction p as [|[m c] p IH]; intros H t Hin; [destruct Hin|].
+  destruct Hin as [<-|Hin].
+  - cbn [mp_wf] in H. repeat (apply andb_true_iff in H; destruct H as [H ?]). assumption.
+  - cbn [mp_wf] in H. apply andb_true_iff in H. destruct H as [_ H]. apply IH; assumption.
+Qed.
+
+Lemma mp_coeffs_eval rho x p : mp_wf p = true -> cp_eval rho (rho x) (mp_coeffs x p) = mp_eval rho p.
+Proof.
+  intros Hwf. unfold mp_coeffs. destruct p as [|t p]; [reflexivity|].
+  apply view_eval_terms. intros u Hu. split; [apply (mp_wf_monos _ Hwf); assumption|].
+  pose proof (mp_degree_ge x _ u Hu). lia.
+Qed.
+
+(* the entry point on polynomials: coefficient_reduce(A, B, &P, &Q, &R, type) *)
+Lemma m_reduce_identity lcmf fuel ty A B P Q R :
+  mp_wf A = true -> mp_wf B = true ->
+  m_reduce lcmf fuel ty A B = Some (P, Q, R) ->
+  forall rho, mp_eval rho P * mp_eval rho A = mp_eval rho Q * mp_eval rho B + mp_eval rho R.
+Proof.
+  intros HA HB. unfold m_reduce. destruct (mp_top A) as [x|]; [|discriminate].
+  destruct (cmp_type A B); try discriminate;
+    (destruct (reduce _ _ _ _ _ _ _) as [[[P0 Q0] R0]|] eqn:E; [|discriminate]);
+    intros H rho; inversion H; subst P Q R;
+    pose proof (reduce_identity _ _ _ _ _ _ _ _ _ _ E rho (rho x)) as Hid;
+    rewrite !mp_coeffs_eval in Hid by assumption; rewrite !mp_of_coeffs_eval; exact Hid.
+Qed.
